@@ -1455,7 +1455,7 @@ func runC08(c *lib.Ctx) {
 	nSweep := len(variants)
 
 	// --- composite programs
-	nProg := c.Scale(500, 9000)
+	nProg := c.Scale(2000, 12000)
 	g := &c08Gen{rng: c.Rng}
 	type progInfo struct {
 		p        *c08Program
